@@ -265,6 +265,10 @@ let () =
                | "put" -> run_monitor put_step put_init tr
                | "select" -> run_monitor sel_step (O, Before) tr
                | "skip" -> run_monitor skip_step SStart tr
+               | "rmdec" ->
+                   (match String.split_on_char '|' param with
+                    | [pat; vol] -> run_monitor (rm_dec_step (sv pat) (sv vol)) [] tr
+                    | _ -> failwith "rmdec param")
                | "consent" -> run_monitor (consent_step (match param with "n1" -> Some true | "n2" -> Some false | _ -> None)) Unknown tr
                | "decision" ->
                    (match String.split_on_char '|' param with
